@@ -33,6 +33,22 @@ class CtlProperty:
         return res.violations
 
 
+def is_closed(proc: Any) -> bool:
+    """A closed process refuses further use with ClosedError: it cannot be stepped any more (and, in the implementation as
+    it stands, takes no more cleanups).  Either refusal shows that it is closed - the statements do not say which method."""
+    import plumpy
+    for attempt in (lambda: proc.add_cleanup(lambda: None), lambda: proc.step()):
+        try:
+            result = attempt()
+        except plumpy.ClosedError:
+            return True
+        except Exception:  # noqa: BLE001 - e.g. the assertion that a terminated process cannot be stepped
+            continue
+        if hasattr(result, 'close'):
+            result.close()  # the coroutine of a step that was not refused
+    return False
+
+
 def is_wc_unit(unit: Any) -> bool:
     """Units of the work-chain family are ((items, how, reassign[, shape]), script); program units are (program, script)
     with program a tuple of (kind, actions, terminator) steps."""
